@@ -100,12 +100,13 @@ PROPS['C02'] = Prop(
 )
 
 PROPS['C15'] = Prop(
-    functions=PRINTERS + ['policy:RuleDefault.__eq__'],
+    functions=PRINTERS + ['policy:RuleDefault.__eq__', '_parser:_parse_check'],
     bounded=[('bounded.lang', 'c15')],
     level='other',
     technique='contract-based deductive verification of the printers (own VC generator + z3); the round trip through the parser is a labelled bounded stand-in',
     explanation='PROVED for all well-formed trees: the printers produce @, !, kind:match, "not " + operand, and the '
-                'parenthesised " and "/" or " join of the printed operands. BOUNDED: that parsing the printed text '
+                'parenthesised " and "/" or " join of the printed operands; _parse_check builds, for a leaf text kind:match, '
+                'an object whose kind and match fields are exactly the two halves of the text (so printing it gives the text back). BOUNDED: that parsing the printed text '
                 'rebuilds the same printed form and decisions (random expressions, rule-set dump/load, RuleDefault '
                 'equality).',
     assumptions=COMMON_ASSUME + ['str(o) of an object dispatches to the proved __str__ of its dynamic class ($str summary)'],
@@ -115,14 +116,14 @@ ENFORCE_SIDE = ['policy:Enforcer._enforce_scope', 'policy:Enforcer._map_context_
 ENFORCE = ['policy:Enforcer.enforce', 'policy:Enforcer.authorize']
 
 PROPS['C03'] = Prop(
-    functions=['policy:Rules.__missing__', '_checks:RuleCheck.__call__'],
+    functions=['policy:Rules.__missing__', '_checks:RuleCheck.__call__', 'policy:Enforcer.set_rules'],
     thorough_functions=['policy:Enforcer.enforce'],
     bounded=[('bounded.enforce', 'c03')],
     level='other',
     technique='contract-based deductive verification of the rule-store lookup (own VC generator + z3); the enforce() branch structure is a labelled bounded stand-in until its contract is discharged within budget',
     explanation='PROVED for all inputs: Rules.__missing__ returns exactly lookup(): the default rule only when it is a '
                 'check object or a non-empty name that is itself defined, KeyError otherwise, never re-entering itself; '
-                'RuleCheck denies on an undefined reference. BOUNDED: the three enforce() branches (empty rule set, '
+                'RuleCheck denies on an undefined reference; set_rules(overwrite) hands the new store the enforcer default_rule (name or object) unchanged, so the fallback always reads the current definition. BOUNDED: the three enforce() branches (empty rule set, '
                 'KeyError, defined name) over the complete table of rule sets on {a, b, default} x default-rule '
                 'configurations x queried names.',
     assumptions=COMMON_ASSUME + ['default_rule is None, a string or a check object',
